@@ -34,11 +34,11 @@ pub fn config(i: usize) -> Cfg {
 #[derive(Serialize, Deserialize, Clone, Debug)]
 pub enum C16Case {
     Replay { history: HistoryCase },
-    Growth { pagesize: u64, strict: bool, value_kib: u32, values_per_tx: u32, txs: u32 },
+    Growth { pagesize: u64, strict: bool, #[serde(default)] populate: bool, value_kib: u32, values_per_tx: u32, txs: u32 },
     OddSize { pagesize: u64 },
 }
 
-fn growth_history(pagesize: u64, strict: bool, value_kib: u32, values_per_tx: u32, txs: u32) -> HistoryCase {
+fn growth_history(pagesize: u64, strict: bool, populate: bool, value_kib: u32, values_per_tx: u32, txs: u32) -> HistoryCase {
     let mut t = vec![TxSpec { kind: TxKind::Commit, ops: vec![Op::GetOrCreate { b: 0, k: KeySel::Lit(b"g".to_vec()), kk: 2 }] }];
     let mut c = 0u32;
     for i in 0..txs {
@@ -55,7 +55,7 @@ fn growth_history(pagesize: u64, strict: bool, value_kib: u32, values_per_tx: u3
             t.push(TxSpec { kind: TxKind::Reopen, ops: vec![] });
         }
     }
-    HistoryCase { cfg: Cfg { pagesize, num_pages: 4, strict, populate: false }, fresh_handles: false, txs: t }
+    HistoryCase { cfg: Cfg { pagesize, num_pages: 4, strict, populate }, fresh_handles: false, txs: t }
 }
 
 pub fn run_case(case: &C16Case, path: &std::path::Path) -> (Result<(), Failure>, CaseStats, u64) {
@@ -65,8 +65,8 @@ pub fn run_case(case: &C16Case, path: &std::path::Path) -> (Result<(), Failure>,
             let o = run_history(history, &opts);
             (o.result, o.stats, 0)
         }
-        C16Case::Growth { pagesize, strict, value_kib, values_per_tx, txs } => {
-            let h = growth_history(*pagesize, *strict, *value_kib, *values_per_tx, *txs);
+        C16Case::Growth { pagesize, strict, populate, value_kib, values_per_tx, txs } => {
+            let h = growth_history(*pagesize, *strict, *populate, *value_kib, *values_per_tx, *txs);
             let mut opts = RunOpts::standard(path.to_path_buf());
             opts.keep_file = true;
             let o = run_history(&h, &opts);
@@ -88,7 +88,7 @@ pub fn run_case(case: &C16Case, path: &std::path::Path) -> (Result<(), Failure>,
             match r {
                 Err(_) | Ok(Err(_)) => (Ok(()), CaseStats::default(), 1),
                 Ok(Ok(())) => {
-                    let mut h = growth_history(ps, false, 1, 3, 4);
+                    let mut h = growth_history(ps, false, false, 1, 3, 4);
                     h.cfg.num_pages = 8;
                     let opts = RunOpts::standard(path.to_path_buf());
                     let o = run_history(&h, &opts);
@@ -145,14 +145,14 @@ fn shard(ctx: &ShardCtx, known: &Known) -> ShardOut {
     }
     // growth runs: spread over shards
     let growth: Vec<C16Case> = vec![
-        C16Case::Growth { pagesize: 1024, strict: false, value_kib: 100, values_per_tx: 12, txs: 22 },
-        C16Case::Growth { pagesize: 4096, strict: true, value_kib: 300, values_per_tx: 5, txs: 18 },
-        C16Case::Growth { pagesize: 5000, strict: false, value_kib: 64, values_per_tx: 30, txs: 14 },
-        C16Case::Growth { pagesize: 16384, strict: false, value_kib: 1000, values_per_tx: 2, txs: 14 },
-        C16Case::Growth { pagesize: 1032, strict: true, value_kib: 200, values_per_tx: 8, txs: 16 },
-        C16Case::Growth { pagesize: 65536, strict: false, value_kib: 500, values_per_tx: 4, txs: 13 },
-        C16Case::Growth { pagesize: 3000, strict: false, value_kib: 150, values_per_tx: 10, txs: 18 },
-        C16Case::Growth { pagesize: 2048, strict: false, value_kib: 9000, values_per_tx: 1, txs: 4 },
+        C16Case::Growth { pagesize: 1024, strict: false, populate: false, value_kib: 100, values_per_tx: 12, txs: 22 },
+        C16Case::Growth { pagesize: 4096, strict: true, populate: true, value_kib: 300, values_per_tx: 5, txs: 18 },
+        C16Case::Growth { pagesize: 5000, strict: false, populate: false, value_kib: 64, values_per_tx: 30, txs: 14 },
+        C16Case::Growth { pagesize: 16384, strict: false, populate: true, value_kib: 1000, values_per_tx: 2, txs: 14 },
+        C16Case::Growth { pagesize: 1032, strict: true, populate: false, value_kib: 200, values_per_tx: 8, txs: 16 },
+        C16Case::Growth { pagesize: 65536, strict: false, populate: true, value_kib: 500, values_per_tx: 4, txs: 13 },
+        C16Case::Growth { pagesize: 3000, strict: false, populate: false, value_kib: 150, values_per_tx: 10, txs: 18 },
+        C16Case::Growth { pagesize: 2048, strict: false, populate: true, value_kib: 9000, values_per_tx: 1, txs: 4 },
     ];
     for (i, g) in growth.iter().enumerate() {
         if i % ctx.nshards != ctx.shard && !(ctx.tier == Tier::Thorough && (i + 8) % ctx.nshards == ctx.shard) {
